@@ -53,6 +53,17 @@ impl RunCtx {
 
 static ACTIVE: RwLock<Option<Arc<RunCtx>>> = RwLock::new(None);
 
+/// While set, the scheduling hooks are no-ops (the baton holder is running a nested,
+/// single-task verification such as a post-crash history on an image).
+pub static SUSPEND: AtomicBool = AtomicBool::new(false);
+
+fn scheduler() -> Option<Arc<Turnstile>> {
+    if SUSPEND.load(Ordering::SeqCst) {
+        return None;
+    }
+    active().and_then(|c| c.ts.clone())
+}
+
 pub fn set_active(ctx: Option<Arc<RunCtx>>) {
     *ACTIVE.write().unwrap() = ctx;
 }
@@ -67,31 +78,23 @@ const BASE: usize = 0x1000_0000_0000;
 
 impl arroy::verif::Hooks for SimHooks {
     fn yield_point(&self, site: &'static str) {
-        if let Some(ctx) = active() {
-            if let Some(ts) = &ctx.ts {
-                ts.yield_point(site);
-            }
+        if let Some(ts) = scheduler() {
+            ts.yield_point(site);
         }
     }
     fn par_begin(&self, n_tasks: usize) {
-        if let Some(ctx) = active() {
-            if let Some(ts) = &ctx.ts {
-                ts.par_begin(n_tasks);
-            }
+        if let Some(ts) = scheduler() {
+            ts.par_begin(n_tasks);
         }
     }
     fn task_enter(&self, key: u32) {
-        if let Some(ctx) = active() {
-            if let Some(ts) = &ctx.ts {
-                ts.task_enter(key);
-            }
+        if let Some(ts) = scheduler() {
+            ts.task_enter(key);
         }
     }
     fn task_exit(&self, key: u32) {
-        if let Some(ctx) = active() {
-            if let Some(ts) = &ctx.ts {
-                ts.task_exit(key);
-            }
+        if let Some(ts) = scheduler() {
+            ts.task_exit(key);
         }
     }
     fn canon_addr(&self, addr: usize, ordinal: usize, len: usize) -> usize {
